@@ -126,7 +126,9 @@ def run(tier, seed, jobs) -> Result:
     )
     per = []
     for sc in s_scenarios(tier):
-        r = sched.explore(sc, 2 if tier == "quick" else 3, jobs, seed, max_exec=20000 if tier == "quick" else 80000)
+        from .c10 import thorough_bound
+
+        r = sched.explore(sc, 2 if tier == "quick" else thorough_bound(sc["name"]), jobs, seed, max_exec=20000 if tier == "quick" else 120000)
         res.failures.extend(f for f in r["failures"] if f.rule.startswith("C01."))
         res.coverage["states"] += r["executions"]
         res.coverage["transitions"] += r["steps"]
